@@ -51,6 +51,7 @@ pub struct FeeSplitMonitor {
     pub multi_step_nontrivial: bool,
     pub single_segment_hookfree: u32,
     pub remainder_fee_steps: u32,
+    pub budget_spent_exactly_at_target: u32,
     pub zero_liquidity_steps: u32,
     pub protocol_collects: u32,
     pub protocol_collects_nonzero: u32,
@@ -86,6 +87,9 @@ impl FeeSplitMonitor {
                 self.remainder_fee_steps += 1;
                 BigUint::from(s.amount_remaining_before) - BigUint::from(s.amount_in.min(s.amount_remaining_before))
             } else {
+                if exact_in && s.amount_remaining_before as u128 == s.amount_in as u128 + s.fee_amount as u128 {
+                    self.budget_spent_exactly_at_target += 1;
+                }
                 fee_on_input(s.amount_in, s.fee_rate)
             };
             if BigUint::from(s.fee_amount) != want_fee {
@@ -235,7 +239,7 @@ impl Monitor for FeeSplitMonitor {
             return Ok(());
         }
         match op {
-            Op::Swap { .. } | Op::SwapBack { .. } => self.check_swap(h, pre, post, r),
+            Op::Swap { .. } | Op::SwapBack { .. } | Op::SwapExact { .. } => self.check_swap(h, pre, post, r),
             Op::CollectProtocolFees { .. } => {
                 let pl = &h.w.pools[h.pool];
                 let (da, db) = (h.w.user_token_existing(h.treasury, &pl.mint_a.key), h.w.user_token_existing(h.treasury, &pl.mint_b.key));
@@ -285,6 +289,7 @@ pub fn check_history(case: &HistoryCase, l: &mut Local) -> Result<(), String> {
     l.count_n("steps_checked", m.steps_checked as u64);
     l.count_n("single_segment_hookfree_checks", m.single_segment_hookfree as u64);
     l.count_n("remainder_fee_steps", m.remainder_fee_steps as u64);
+    l.count_n("steps_reaching_their_target_with_the_budget_spent_exactly", m.budget_spent_exactly_at_target as u64);
     l.count_n("zero_liquidity_steps", m.zero_liquidity_steps as u64);
     l.count_n("protocol_fee_collections", m.protocol_collects as u64);
     l.count_n("protocol_fee_collections_nonzero", m.protocol_collects_nonzero as u64);
